@@ -55,6 +55,21 @@ pub fn replay_file(path: &str) -> i32 {
             return 3;
         }
     };
+    if case.note.starts_with("compile-timeout") {
+        // does building the executor (real cell type) finish?  A watchdog ends the replay after 15 s.
+        let (b, l, w, n) = (case.backend.name().to_string(), case.level, case.width, case.program.len());
+        let prog = report::short(&case.program);
+        std::thread::spawn(move || {
+            std::thread::sleep(std::time::Duration::from_secs(15));
+            println!("REPRODUCED property=C13 {} L{} w{} program={:?}: building the executor for this {}-character program did not finish within 15 s", b, l, w, prog, n);
+            let _ = std::io::stdout().flush();
+            std::process::exit(1);
+        });
+        let t0 = Instant::now();
+        let _ = crate::subject::compiled_rendering_w(case.backend, &case.program, case.level, case.width);
+        println!("NOT-REPRODUCED: compilation finished in {:.2} s", t0.elapsed().as_secs_f64());
+        return 0;
+    }
     let r = native::run_ref_native(&case, 50_000_000);
     match r.status {
         RefStatus::Halted => println!("REF halted steps={} events={}", r.steps, r.events.len()),
@@ -534,7 +549,15 @@ fn plan(property: &str, tier: &str) -> Option<Plan> {
             })
         }
         "C13" => {
-            let (progs, desc) = corpus_programs(tier, false);
+            let (mut progs, desc) = corpus_programs(tier, false);
+            // MULCHAIN: chains of n multiplications whose factors are still pending sums (what the
+            // optimiser's guards against expression blow-up exist for); compile time must stay small
+            let sq = "[->+>+<<]>[->[-<<+>>>+<]>[-<+>]<<]>[-]<<+";
+            let pr = "[->>+<<]>>[-<[-<+>>>+<<]>>[-<<+>>]<]<+<";
+            for n in 2..=(if thorough { 14 } else { 11 }) {
+                progs.push(("MULCHAIN".into(), format!(",{}.", sq.repeat(n))));
+                progs.push(("MULCHAIN".into(), format!(",>,<{}.>.", pr.repeat(n))));
+            }
             let mut cfg = base_cfg(property, tier);
             cfg.twice = true;
             let levels: Vec<u32> = if thorough { vec![0, 1, 2, 3, 4] } else { vec![0, 2, 3] };
